@@ -9,6 +9,7 @@ import (
 	"log"
 	"os"
 	"strings"
+	"sync"
 	"time"
 
 	"github.com/la5nta/wl2k-go/fbb"
@@ -267,6 +268,45 @@ func init() {
 			if hasCb && !main.Err && !ok {
 				c.Violate("C16:handshake-failed", "handshake failed although a password callback was registered", rep)
 			}
+		}
+		// several sessions answer challenges at the same time (a gateway serving many stations): every response is
+		// still the one the algorithm defines
+		{
+			var wg sync.WaitGroup
+			var mu sync.Mutex
+			bad := ""
+			for g := 0; g < 8; g++ {
+				wg.Add(1)
+				go func(g int) {
+					defer wg.Done()
+					defer func() {
+						if pv := recover(); pv != nil {
+							mu.Lock()
+							if bad == "" {
+								bad = fmt.Sprintf("secureLoginResponse panicked while %d other goroutines computed responses: %v", 7, pv)
+							}
+							mu.Unlock()
+						}
+					}()
+					for k := 0; k < c.Budget(4000, 40000); k++ {
+						ch := fmt.Sprintf("%08d", (g*7919+k*104729)%100000000)
+						pw := fmt.Sprintf("pw-%d-%d", g, k%97)
+						if got, want := fbb.VerifSecureLoginResponse(ch, pw), specResponse(ch, pw); got != want {
+							mu.Lock()
+							if bad == "" {
+								bad = fmt.Sprintf("secureLoginResponse(%q,%q) = %q while %d other goroutines computed responses, want %q", ch, pw, got, 7, want)
+							}
+							mu.Unlock()
+							return
+						}
+					}
+				}(g)
+			}
+			wg.Wait()
+			if bad != "" {
+				c.Violate("C16:response:concurrent", bad, map[string]interface{}{"goroutines": 8})
+			}
+			c.Res.Distribution["concurrent-responses(oracle only)"] += 8
 		}
 		c.Compare(cases)
 	})
